@@ -7,8 +7,8 @@
 
 package tree
 
-//@ pred live() = abs(elems(tree.tree), tokenIndex)
-//@ pred absAt(j int) = abs(elems(tree.tree), j)
+//@ pred live() = tabs(elems(tree.tree), tokenIndex)
+//@ pred absAt(j int) = tabs(elems(tree.tree), j)
 //@ pred inputOK() = n >= 0 && runeAtC(n) == 1114112 && forall(i, imp(0 <= i && i < n, 0 <= runeAtC(i) && runeAtC(i) <= 1114111))
 //@ pred RT() = p != nil && elems(buffer) == bufc && soff(buffer) == 0 && len(buffer) == n+1 && inputOK()
 //@      && 0 <= position && position <= n && n+1 <= maxU
